@@ -263,6 +263,23 @@ class RdmsOps:
             if ab is not None:
                 listed = listed + [ab]         # a value no RDM carries selects nothing (whatever it would truncate to)
                 self.ctx.probe('absent_value_in_list')
+        if o['a'][4] % 29 == 0 and self.pool.prop == 'C12':
+            ab = gen.absent_like(vals, set(gv))
+            if ab is not None:
+                # a selection that matches nothing gives an empty stack; results are then collected into it with append (a
+                # loop that starts from an empty selection): the source stays as it was, whatever happens to the collection
+                try:
+                    coll = src.obj.subset(self._byarg(by, o), [ab])
+                    if coll.n_rdm == 0:
+                        coll.append(src.obj)
+                        coll.append(src.obj)
+                        if coll.dissimilarities.size:
+                            coll.dissimilarities[0, 0] = 777.25
+                        self.ctx.probe('collected_into_empty_stack')
+                except Exception:
+                    self.ctx.probe('collect_into_empty_stack_raised')
+                self.pool.sweep('append[onto-empty-subset]', args=[src.sid])
+                return
         arg = vals[0] if (len(listed) == 1 and o['flag']) else (np.array(listed) if o['flag2'] else list(listed))
         guard = self._plain_guard('subset', value=arg)
         try:
